@@ -246,6 +246,9 @@ type runCfg struct {
 	cfg int
 	cb  int
 	app int // application state bits (cfgFull only)
+	// unaddr: a received session without any address (the peer's header named
+	// neither side); only without application state
+	unaddr bool
 }
 
 type runOut struct {
@@ -266,7 +269,11 @@ func (rc runCfg) run(input string, serve func(s *xmpp.Session, h xmpp.Handler) (
 		h = mux.New(rc.ns)
 	}
 	if rc.app == 0 || rc.cfg != cfgFull {
-		s, rw, err := sess.New(rc.ns, input)
+		mk := sess.New
+		if rc.unaddr {
+			mk = sess.NewUnaddressed
+		}
+		s, rw, err := mk(rc.ns, input)
 		if err != nil {
 			panic("c09: session setup failed: " + err.Error())
 		}
